@@ -518,6 +518,7 @@ def run(tier: str, seed: int) -> int:
                        'unchecked': 'correspondence Lean model <-> implementation (conn driver module)',
                        'first_difference': json.loads(json.dumps(d, default=str)), 'disagreements': len(disagreements)}
             report_violation('dis', payload, found=False)
+    sem = common.pysem_stage(oc, PROP, ['conn'], seed, tier)
     if not proof_ok:
         bad = []
         try:
@@ -543,6 +544,7 @@ def run(tier: str, seed: int) -> int:
         'trusted_base': common.TRUSTED_BASE,
         'theorems': lean.get('theorems', []),
         'axioms': lean.get('axioms', {}),
+        **sem,
         'evaluations': evaluations,
         'distinct_nontrivial': len(nontrivial),
         'rule': RULE,
